@@ -86,7 +86,28 @@ impl Prop for C06 {
         )
             .prop_map(|(src, pre, order, pages)| {
                 // (a stage that does not apply to the current sample type is skipped by the builder)
-                Recipe { src, src2: None, pre, diamond: None, post: vec![], extra_sink: 0, order, pages, src_pieces: vec![], pkt: false }
+                // one tail case in three: a source that hands over its data in pieces, some of
+                // them empty - a call that answers Again after a mere change of internal state
+                let src_pieces: Vec<u16> = if src.seed % 3 == 0 {
+                    let mut r = crate::gens::XRng::new(src.seed as u64 ^ 0x91ece);
+                    let mut left = src.len.min(20_000);
+                    let mut v = Vec::new();
+                    while left > 0 && v.len() < 24 {
+                        let p = match r.below(4) {
+                            0 => 0,
+                            1 => 1 + r.below(8) as u32,
+                            _ => 1 + r.below(left.min(3000) as u64) as u32,
+                        }
+                        .min(left);
+                        v.push(p as u16);
+                        left -= p;
+                    }
+                    if v.is_empty() { vec![0, 0] } else { v }
+                } else {
+                    vec![]
+                };
+                let src = if src_pieces.is_empty() { src } else { Gen { len: src_pieces.iter().map(|x| *x as u32).sum(), ..src } };
+                Recipe { src, src2: None, pre, diamond: None, post: vec![], extra_sink: 0, order, pages, src_pieces, pkt: false }
             });
         prop_oneof![1 => recipe_strategy(tier.pick(24_000, 60_000) as u32), 1 => tail].boxed()
     }
@@ -181,7 +202,7 @@ impl Prop for C06 {
         }
     }
     fn rule(&self) -> String {
-        "generated: graph recipe over the block library (VectorSource [x2 -> Xor] -> stages from {XorConst, NrziDecode, Descrambler, Delay, Skip, RationalResampler, Map u8->f32, BinarySlicer, AddConst, MultiplyConst, FirFilter(+deci), SinglePoleIirFilter, HdlcDeframer->VecToStream} -> optional diamond Tee -> two balanced branches -> Xor/Add -> stages -> 1-2 sinks incl. NullSink), source lengths 0..24k (thorough 60k) samples, stream sizes 1-4 pages, generated add order (all permutations enumerated for six small chains); half of the generated cases come from a second family: a source and 1-4 stages biased to blocks that move data and then report a wait or keep a remainder in their input (resampler, chunker, delay, skip, FIR, FFT filter), added in exact reverse data-flow order (2/3) or a random order. Oracle: differential against the sequential reference executor (same recipe, 4 MB streams, topological round robin to quiescence): when Graph::run() returns Ok every sink holds exactly the reference sequence. Non-trivial: add order not topological, or a sink result larger than the stream capacity, or a block that reports a wait from a call in which it moved data (sinks, resampler) present; distinct = hash of the recipe.".into()
+        "generated: graph recipe over the block library (VectorSource [x2 -> Xor] -> stages from {XorConst, NrziDecode, Descrambler, Delay, Skip, RationalResampler, Map u8->f32, BinarySlicer, AddConst, MultiplyConst, FirFilter(+deci), SinglePoleIirFilter, HdlcDeframer->VecToStream} -> optional diamond Tee -> two balanced branches -> Xor/Add -> stages -> 1-2 sinks incl. NullSink), source lengths 0..24k (thorough 60k) samples, stream sizes 1-4 pages, generated add order (all permutations enumerated for six small chains); half of the generated cases come from a second family: a source and 1-4 stages biased to blocks that move data and then report a wait or keep a remainder in their input (resampler, chunker, delay, skip, FIR, FFT filter), added in exact reverse data-flow order (2/3) or a random order; a third of these use a source that hands over its data in pieces, some of them empty (a call that answers Again after a mere change of internal state). Oracle: differential against the sequential reference executor (same recipe, 4 MB streams, topological round robin to quiescence): when Graph::run() returns Ok every sink holds exactly the reference sequence. Non-trivial: add order not topological, or a sink result larger than the stream capacity, or a block that reports a wait from a call in which it moved data (sinks, resampler) present; distinct = hash of the recipe.".into()
     }
     fn assumptions(&self) -> Vec<String> {
         vec![
